@@ -32,7 +32,15 @@ def handleRcb (dim iter tol plen : Nat) (ws : List Int) (np : Nat) (xs : List Na
   let bb := bboxF64 dim pts64
   showOutcome (runBB (withinTol (f64OfBits tol)) ⟨dim, fuel⟩ iter pts ws plen bb.1 bb.2)
 
-def handle (toks : List String) : String :=
+/-- `rcbreuse …`: the array holds the ids of a previous call.  `rcb` overwrites every cell
+before reading any (`runBB` does not take the array's contents), so the prediction is that
+of `rcb`: the `<prev iter>` token is dropped. -/
+def dropPrev : List String → List String
+  | "rcbreuse" :: d :: iter :: tol :: threads :: _prev :: rest =>
+    "rcb" :: d :: iter :: tol :: threads :: rest
+  | t => t
+
+def handleCore (toks : List String) : String :=
   match toks with
   | "rcb" :: d :: iter :: tol :: _threads :: plen :: nw :: rest =>
     if largeN plen || largeN nw then skipLarge else
@@ -106,5 +114,7 @@ def handle (toks : List String) : String :=
       | .oob => "panic index out of bounds"
       | .fuel => "abort fuel"
   | _ => "bad-op"
+
+def handle (toks : List String) : String := handleCore (dropPrev toks)
 
 end Coupe.Driver.C03
